@@ -4,7 +4,7 @@ From ZV.Common Require Import Base Run.
 From Coq Require Import Sorting.Sorted Sorting.Permutation.
 From ZV.C11 Require Import Model ProofsSpec ProofsScatter ProofsLsd ProofsMerge ProofsSet ProofsInsertion ProofsExtSort ProofsExamples.
 From ZV.C11 Require Import ModelMsd ModelAdv ModelPar ModelSkip ModelMultipass ModelFunnel ModelKv ModelCases.
-From ZV.C11 Require Import ProofsMsd ProofsScatterK ProofsAdv ProofsPar ProofsSkip ProofsSetVar ProofsMultipass ProofsKv ProofsExamplesX.
+From ZV.C11 Require Import ProofsMsd ProofsMsdDepth ProofsScatterK ProofsAdv ProofsPar ProofsSkip ProofsSetVar ProofsMultipass ProofsKv ProofsExamplesX.
 Open Scope N_scope.
 
 (* the checker used for the S-only cells decides exactly "sorted permutation of the input" *)
@@ -456,3 +456,27 @@ Check vec_external_sort_sorts :
     Sorted N.le (vec_external_sort std_sort elem_size buf data) /\
     Permutation data (vec_external_sort std_sort elem_size buf data).
 Print Assumptions vec_external_sort_sorts.
+
+(* sort_bytes_msd before fix 50ae740: two equal strings of length L cost L + 1 nested calls (stack overflow at ~100 KB) *)
+Theorem sort_bytes_unfixed_depth_unbounded :
+  forall (a : N) (L : nat), a < 256 -> sort_bytes_levels false [repeat a L; repeat a L] = S L.
+Proof. exact sort_bytes_unfixed_depth_proof. Qed.
+Check sort_bytes_unfixed_depth_unbounded :
+  forall (a : N) (L : nat), a < 256 -> sort_bytes_levels false [repeat a L; repeat a L] = S L.
+Print Assumptions sort_bytes_unfixed_depth_unbounded.
+
+(* with the common-prefix skip every level splits its input: at most as many nested calls as there are strings *)
+Theorem sort_bytes_depth_bounded :
+  forall data : list (list N), data <> [] -> (sort_bytes_levels true data <= length data)%nat.
+Proof. exact sort_bytes_depth_bounded_proof. Qed.
+Check sort_bytes_depth_bounded :
+  forall data : list (list N), data <> [] -> (sort_bytes_levels true data <= length data)%nat.
+Print Assumptions sort_bytes_depth_bounded.
+
+(* the fix does not change what is computed *)
+Theorem sort_bytes_fix_keeps_result :
+  forall data, Forall str_ok data -> sort_bytes_unfixed data = sort_bytes data.
+Proof. exact sort_bytes_unfixed_eq. Qed.
+Check sort_bytes_fix_keeps_result :
+  forall data, Forall str_ok data -> sort_bytes_unfixed data = sort_bytes data.
+Print Assumptions sort_bytes_fix_keeps_result.
